@@ -524,3 +524,189 @@ impl Scenario for C12PromIdle {
         vec!["quanta clock (mock; also installed as the thread's clock override so Instant::now() in record/render reads it)"]
     }
 }
+
+// ----------------------------------------------------------------------------------------------
+// (iii) an updater thread racing the observing (exporter) thread on one counter: every atomic step
+// of `Generational` (value write, generation bump), of the registry shard lock and of the recency
+// table is a scheduling point; the observer owns the mock clock.
+
+#[derive(Clone, Debug, Serialize, Deserialize)]
+pub struct MtPlan {
+    pub timeout_ms: u64,
+    /// the updater's increments (each > 0)
+    pub updates: Vec<u64>,
+    /// before each observation the observer advances the clock: 0 = 1 ms, 1 = timeout + 1 ns, 2 = 3 x timeout
+    pub observes: Vec<u8>,
+    /// scheduling points the updater idles before it starts
+    pub delay: u32,
+}
+
+#[derive(Clone, Debug)]
+struct MtObs {
+    t: u64,
+    inv: u64,
+    ret: u64,
+    listed: bool,
+    keep: bool,
+    value: u64,
+}
+
+pub struct C12RecencyMt;
+
+impl Scenario for C12RecencyMt {
+    type Plan = MtPlan;
+    fn property(&self) -> &'static str {
+        "C12"
+    }
+    fn name(&self) -> &'static str {
+        "recency_mt"
+    }
+    fn horizon(&self) -> u64 {
+        300
+    }
+    fn plan(&self, r: &mut Rng, _tier: Tier) -> MtPlan {
+        MtPlan {
+            timeout_ms: r.range(1, 50),
+            updates: (0..r.range(1, 4)).map(|_| r.range(1, 3)).collect(),
+            observes: (0..r.range(2, 5)).map(|_| *r.pick(&[0u8, 1, 1, 2])).collect(),
+            delay: r.below(6) as u32,
+        }
+    }
+    fn execute(&self, plan: &MtPlan, sched: &SchedSpec) -> RunReport {
+        let ups: Arc<Mutex<Vec<(u64, u64, u64)>>> = Arc::new(Mutex::new(vec![])); // (inv, ret, delta)
+        let obs: Arc<Mutex<Vec<MtObs>>> = Arc::new(Mutex::new(vec![]));
+        let p = plan.clone();
+        let (u2, o2) = (ups.clone(), obs.clone());
+        let sim = simulate(sched, 100_000, move || {
+            let (clock, mock) = quanta::Clock::mock();
+            let registry: Arc<Registry<Key, GenerationalAtomicStorage>> = Arc::new(Registry::new(GenerationalAtomicStorage::atomic()));
+            let recency: Recency<Key> = Recency::new(clock, MetricKindMask::ALL, Some(Duration::from_millis(p.timeout_ms)));
+            let k = key(0);
+            let (reg_u, k_u, updates, delay) = (registry.clone(), k.clone(), p.updates.clone(), p.delay);
+            let updater = dsim::spawn("updater", move || {
+                for _ in 0..delay {
+                    dsim::point("c12mt.idle");
+                }
+                for d in updates {
+                    dsim::point("c12mt.update");
+                    let inv = dsim::step();
+                    reg_u.get_or_create_counter(&k_u, |c| CounterFn::increment(c, d));
+                    let ret = dsim::step();
+                    u2.lock().unwrap().push((inv, ret, d));
+                }
+            });
+            let t_ns = p.timeout_ms * 1_000_000;
+            let mut now = 0u64;
+            for a in &p.observes {
+                dsim::point("c12mt.observe");
+                let d = match a {
+                    0 => 1_000_000,
+                    1 => t_ns + 1,
+                    _ => 3 * t_ns,
+                };
+                mock.increment(d);
+                dsim::advance(d);
+                now += d;
+                let inv = dsim::step();
+                let mut o = MtObs { t: now, inv, ret: 0, listed: false, keep: false, value: 0 };
+                for (hk, h) in registry.get_counter_handles() {
+                    if hk == k {
+                        o.listed = true;
+                        o.keep = recency.should_store_counter(&hk, h.get_generation(), &registry);
+                        o.value = h.get_inner().load(Ordering::SeqCst);
+                    }
+                }
+                o.ret = dsim::step();
+                let dropped = o.listed && !o.keep;
+                o2.lock().unwrap().push(o);
+                if dropped {
+                    break;
+                }
+            }
+            updater.join();
+        });
+        let mut rep = RunReport::ok(sim);
+        let simr = rep.sim.as_ref().unwrap();
+        let ups = ups.lock().unwrap().clone();
+        let obs = obs.lock().unwrap().clone();
+        let t_ns = plan.timeout_ms * 1_000_000;
+        let mut v = None;
+        if !simr.panics.is_empty() {
+            v = violation("panic", format!("{:?}", simr.panics));
+        } else if simr.end == dsim::End::Completed {
+            for (i, o) in obs.iter().enumerate() {
+                if !o.listed {
+                    continue;
+                }
+                let done_before: u64 = ups.iter().filter(|u| u.1 < o.inv).map(|u| u.2).sum();
+                let begun_before: u64 = ups.iter().filter(|u| u.0 < o.ret).map(|u| u.2).sum();
+                if o.keep {
+                    if o.value < done_before || o.value > begun_before {
+                        v = violation("kept-value-wrong", format!("observation {} (steps {}..{}) reports {} but increments completed before it sum to {} and those begun before it ended to {}", i, o.inv, o.ret, o.value, done_before, begun_before));
+                        break;
+                    }
+                    // must it have been dropped? some earlier observation, more than the timeout
+                    // ago, already began after the last update had completed
+                    if let Some(j) = (0..i).find(|j| obs[*j].listed && o.t - obs[*j].t > t_ns && ups.iter().all(|u| u.1 < obs[*j].inv) && ups.len() == plan.updates.len()) {
+                        v = violation("kept-too-long", format!("observation {} at t={}ns keeps the counter although observation {} at t={}ns (more than the timeout {}ns earlier) already began after the last update had completed", i, o.t, j, obs[j].t, t_ns));
+                        break;
+                    }
+                } else {
+                    // dropped: legal only when it was unchanged since an observation made more than
+                    // the timeout ago
+                    let prev: Vec<&MtObs> = obs[..i].iter().filter(|p| p.listed).collect();
+                    if !prev.iter().any(|p| o.t - p.t > t_ns) {
+                        v = violation("dropped-too-early", format!("observation {} at t={}ns drops the counter but no earlier observation is more than the timeout ({}ns) old: {:?}", i, o.t, t_ns, prev.iter().map(|p| p.t).collect::<Vec<_>>()));
+                        break;
+                    }
+                    if let Some(last) = prev.last() {
+                        if let Some(u) = ups.iter().find(|u| u.0 > last.ret && u.1 < o.inv) {
+                            v = violation("dropped-too-early", format!("observation {} (steps {}..{}) drops the counter although an update (steps {}..{}) was made entirely after the previous observation (steps {}..{})", i, o.inv, o.ret, u.0, u.1, last.inv, last.ret));
+                            break;
+                        }
+                    }
+                    // nothing that completed before the dropping observation may go unreported
+                    let reported = prev.iter().map(|p| p.value).max().unwrap_or(0);
+                    if reported < done_before {
+                        v = violation("dropped-with-unreported-update", format!("observation {} (steps {}..{}) drops the counter; increments completed before it began sum to {} but the most any earlier observation reported is {} (updates {:?}, observations {:?})", i, o.inv, o.ret, done_before, reported, ups, obs.iter().map(|x| (x.t, x.inv, x.ret, x.keep, x.value)).collect::<Vec<_>>()));
+                        break;
+                    }
+                }
+            }
+        }
+        rep.observations = format!("ups={:?} obs={:?}", ups, obs);
+        rep.history_hash = crate::util::hash_str(&rep.observations);
+        rep.count("updates", ups.len() as u64);
+        rep.count("observations", obs.len() as u64);
+        rep.count("drops", obs.iter().filter(|o| o.listed && !o.keep).count() as u64);
+        rep.violation = v;
+        rep
+    }
+    fn shrink(&self, p: &MtPlan) -> Vec<MtPlan> {
+        let mut out = vec![];
+        for i in 0..p.updates.len() {
+            if p.updates.len() > 1 {
+                let mut q = p.clone();
+                q.updates.remove(i);
+                out.push(q);
+            }
+        }
+        for i in 0..p.observes.len() {
+            if p.observes.len() > 1 {
+                let mut q = p.clone();
+                q.observes.remove(i);
+                out.push(q);
+            }
+        }
+        if p.delay > 0 {
+            out.push(MtPlan { delay: p.delay - 1, ..p.clone() });
+        }
+        out
+    }
+    fn real_components(&self) -> Vec<&'static str> {
+        vec!["metrics_util::registry::{Registry, GenerationalAtomicStorage, Generational (value write + generation bump), Recency::should_store_counter}"]
+    }
+    fn stub_components(&self) -> Vec<&'static str> {
+        vec!["thread scheduler (dsim)", "quanta clock (mock, moved by the observing thread)", "the exporter loop (list handles, ask recency per key, read the value) is written in the harness the way the exporters do it"]
+    }
+}
